@@ -832,7 +832,7 @@ class StoryMove(MosFile):
         story is to be moved
         """
         stories = self.base_tag.findall('storyID')
-        if len(stories) < 2:
+        if len(stories) < 2 or stories[1].text is None:
             return
         return Story(self.base_tag, id=stories[1].text, unknown_items=True)
 
@@ -844,9 +844,8 @@ class StoryMove(MosFile):
             raise MosMergeError(
                 f"{self.__class__.__name__} error in {self.message_id} - no stories given"
             )
-        if self.target_story is None:
-            target_story_index = len(ro.base_tag)
-        else:
+        target_story = None
+        if self.target_story is not None:
             target_story, target_story_index = find_child_by_id(parent=ro.base_tag, child_tag='story', id=self.target_story.id)
             if target_story is None:
                 raise MosMergeError(
@@ -857,7 +856,16 @@ class StoryMove(MosFile):
             raise MosMergeError(
                 f"{self.__class__.__name__} error in {self.message_id} - source story not found"
             )
+        if source_story is target_story:
+            raise MosMergeError(
+                f"{self.__class__.__name__} error in {self.message_id} - cannot move a story above itself"
+            )
         remove_node(parent=ro.base_tag, node=source_story)
+        # the target position is only known once the source has been removed
+        if target_story is None:
+            target_story_index = len(ro.base_tag)
+        else:
+            target_story_index = list(ro.base_tag).index(target_story)
         insert_node(parent=ro.base_tag, node=source_story, index=target_story_index)
         return ro
 
@@ -945,22 +953,36 @@ class ItemMoveMultiple(MosFile):
                 f"{self.__class__.__name__} error in {self.message_id} - story not found"
             )
 
-        if self.item is None:
-            target_item_index = len(story)
-        else:
+        target_item = None
+        if self.item is not None:
             target_item, target_item_index = find_child_by_id(parent=story, child_tag='item', id=self.item.id)
             if target_item is None:
                 raise MosMergeError(
                     f"{self.__class__.__name__} error in {self.message_id} - target item not found"
                 )
 
-        for i, item in enumerate(self.items, start=target_item_index):
+        # find every source item before changing anything
+        source_items = []
+        for item in self.items:
             source_item, source_item_index = find_child_by_id(parent=story, child_tag='item', id=item.id)
             if source_item_index is None:
                 raise MosMergeError(
                     f"{self.__class__.__name__} error in {self.message_id} - source item not found"
                 )
+            if source_item is target_item or any(source_item is i for i in source_items):
+                raise MosMergeError(
+                    f"{self.__class__.__name__} error in {self.message_id} - duplicate item ID"
+                )
+            source_items.append(source_item)
+
+        for source_item in source_items:
             remove_node(parent=story, node=source_item)
+        # the target position is only known once the sources have been removed
+        if target_item is None:
+            target_item_index = len(story)
+        else:
+            target_item_index = list(story).index(target_item)
+        for i, source_item in enumerate(source_items, start=target_item_index):
             insert_node(parent=story, node=source_item, index=i)
 
         return ro
@@ -1877,23 +1899,37 @@ class EAStoryMove(ElementAction):
         """
         Merge into the :class:`RunningOrder` object provided.
         """
-        if self.story is None:
-            target_story_index = len(ro.base_tag)
-        else:
+        target_story = None
+        if self.story is not None and self.story.id is not None:
             target_story, target_story_index = find_child_by_id(parent=ro.base_tag, child_tag='story', id=self.story.id)
             if target_story is None:
                 raise MosMergeError(
                     f"{self.__class__.__name__} error in {self.message_id} - target story not found"
                 )
 
+        # find every source story before changing anything
+        stories = []
         for source_story in self.stories:
             story, source_index = find_child_by_id(parent=ro.base_tag, child_tag='story', id=source_story.id)
             if story is None:
                 raise MosMergeError(
                     f"{self.__class__.__name__} error in {self.message_id} - source story not found"
                 )
+            if story is target_story or any(story is s for s in stories):
+                raise MosMergeError(
+                    f"{self.__class__.__name__} error in {self.message_id} - duplicate story ID"
+                )
+            stories.append(story)
+
+        for story in stories:
             remove_node(parent=ro.base_tag, node=story)
-            insert_node(parent=ro.base_tag, node=story, index=target_story_index)
+        # the target position is only known once the sources have been removed
+        if target_story is None:
+            target_story_index = len(ro.base_tag)
+        else:
+            target_story_index = list(ro.base_tag).index(target_story)
+        for i, story in enumerate(stories, start=target_story_index):
+            insert_node(parent=ro.base_tag, node=story, index=i)
         return ro
 
     def inspect(self):
@@ -1958,18 +1994,36 @@ class EAItemMove(ElementAction):
             raise MosMergeError(
                 f"{self.__class__.__name__} error in {self.message_id} - story not found"
             )
-        target_item, target_item_index = find_child_by_id(parent=story, child_tag='item', id=self.item.id)
-        if target_item is None:
-            raise MosMergeError(
-                f"{self.__class__.__name__} error in {self.message_id} - target item not found"
-            )
-        for i, source_item in enumerate(self.items, start=target_item_index):
+        target_item = None
+        if self.item.id is not None:
+            target_item, target_item_index = find_child_by_id(parent=story, child_tag='item', id=self.item.id)
+            if target_item is None:
+                raise MosMergeError(
+                    f"{self.__class__.__name__} error in {self.message_id} - target item not found"
+                )
+
+        # find every source item before changing anything
+        items = []
+        for source_item in self.items:
             item, item_index = find_child_by_id(parent=story, child_tag='item', id=source_item.id)
             if item is None:
                 raise MosMergeError(
                     f"{self.__class__.__name__} error in {self.message_id} - source item not found"
                 )
+            if item is target_item or any(item is i for i in items):
+                raise MosMergeError(
+                    f"{self.__class__.__name__} error in {self.message_id} - duplicate item ID"
+                )
+            items.append(item)
+
+        for item in items:
             remove_node(parent=story, node=item)
+        # the target position is only known once the sources have been removed
+        if target_item is None:
+            target_item_index = len(story)
+        else:
+            target_item_index = list(story).index(target_item)
+        for i, item in enumerate(items, start=target_item_index):
             insert_node(parent=story, node=item, index=i)
         return ro
 
